@@ -72,7 +72,8 @@ namespace Givaro
 
               Element& init(Element& r, const Integer& a) const
               {
-                  reduce(r, Caster<Element>((a < 0)? -a : a));
+                  Integer ip; Caster(ip, _p);
+                  reduce(r, Caster<Element>(((a < 0)? -a : a) % ip));
                   if (a < 0) negin(r);
                   return r;
               }
